@@ -364,3 +364,150 @@ Example C02_example_interrupt_window :
   wa_proj 0 (sched_trace (firstn 11 nv_sched) nv_ext) = [] ++ KReg :: [] ++ KRes :: [] ++ KSusp :: [] /\
   wa_proj 0 (sched_trace nv_sched nv_ext) = [KReg; KRes; KSusp; KWake; KTerm].
 Proof. vm_compute. repeat split. Qed.
+
+(* ------------------------------------------------------------------ round p13a: the spinning waker
+   threads::detail::interrupt_thread -> set_thread_state(.., retry_on_active = false): on an active
+   target this branch does not stage the retry helper, it re-reads the word (yield_k between the
+   reads) until the state is no longer active and then goes on as every other wake-up.
+   Model/SchedSpinWaker.v is a layer over Model/Sched.v: one more bit per thread (nr: the call in
+   progress has retry_on_active = false; chosen by the oracle when the waker's critical section is
+   entered, so every Resume of every program is either a notify or an interrupt), sstep = tstep
+   except at the load of an nr call on an existing, active target, where it changes nothing. *)
+From Pika Require Import Model.SchedSpinWaker Proofs.SchedSpinWakerProofs.
+
+(* the spin, locally: every step of the layer is the spin's stutter — exactly when the thread is
+   inside set_thread_state(u, false) at the load, u exists and reads active — or exactly the step
+   of Model/Sched.v on the base view (with the bit updated by nr_next) *)
+Theorem C02_spin_step_stutter_or_base_step : forall o me g l,
+  (exists u, spin_at g l = Some u /\ sstep o me g l = (g, l)) \/
+  (spin_at g l = None /\
+   fst (sstep o me g l) = fst (tstep (so o) me g (bpc l)) /\
+   bpc (snd (sstep o me g l)) = snd (tstep (so o) me g (bpc l)) /\
+   nr (snd (sstep o me g l)) = nr_next o l (snd (tstep (so o) me g (bpc l)))).
+Proof. exact sstep_refines. Qed.
+Print Assumptions C02_spin_step_stutter_or_base_step.
+
+Theorem C02_spin_at_iff : forall g l u,
+  spin_at g l = Some u <-> spinning l u /\ u < ntasks g /\ st (tw_of g u) = st_active.
+Proof. exact spin_at_some. Qed.
+Print Assumptions C02_spin_at_iff.
+
+(* the spin ends only through the ordinary non-active branches: a waker inside
+   set_thread_state(u, false) at the load that does not spin leaves the shared state unchanged and
+   is either done (u unknown, or its word pending / terminated / ...: call returned, bit cleared)
+   or at the tagged CAS with the word it read (suspended / pending_boost), still an nr call (a
+   failed CAS reloads and may spin again) *)
+Theorem C02_spin_exit_is_ordinary_branch : forall o me g l u,
+  spinning l u -> spin_at g l = None ->
+  let r := sstep o me g l in
+  fst r = g /\
+  ((sub_of (bpc (snd r)) = SNone /\ nr (snd r) = false /\
+    (ntasks g <= u \/ (st (tw_of g u) <> st_active /\ st (tw_of g u) <> st_suspended /\
+                       st (tw_of g u) <> st_pending_boost))) \/
+   (sub_of (bpc (snd r)) = SCas u (tw_of g u) /\ nr (snd r) = true /\ u < ntasks g /\
+    (st (tw_of g u) = st_suspended \/ st (tw_of g u) = st_pending_boost))).
+Proof. exact spin_exit. Qed.
+Print Assumptions C02_spin_exit_is_ordinary_branch.
+
+(* every reachable configuration of the layer (every schedule, every choice of which wake-ups are
+   interrupts) has a base view — forget the bit — that is reachable in Model/Sched.v: all
+   invariants and safety theorems of C01 / C02 about reachable configurations hold of it; and a task
+   phase inside an nr call runs a user body (never a retry helper) *)
+Theorem C02_spin_view_reachable : forall ssched ext,
+  let c := spin_run ssched ext in
+  exists sched,
+    fst c = fst (sched_run sched ext) /\
+    (forall i, bpc (snd c i) = snd (sched_run sched ext) i) /\
+    SpinInv (fst c) (snd c).
+Proof. exact spin_reach. Qed.
+Print Assumptions C02_spin_view_reachable.
+
+(* the stuck-state theorem with spinning wakers: for every schedule from the initial state, if
+   nothing can change any more (sstuck: every step of every thread under every oracle is a no-op —
+   spinning threads included) and the pool has a worker w that is not itself spinning, then
+   1. every thread still inside set_thread_state(u, false) at the load has an existing target whose
+      word is ACTIVE: no spinning waker's target is suspended (woken or not) — the spin only ends
+      by going on to the wake-up or by seeing pending / terminated;
+   2. no wake-up is lost: no task is in the suspension (suspended, p+1) that ended the phase for
+      which a wake-up — notify or interrupt — was issued after it registered;
+   3. a task still active in such a phase (active, p) is itself running on a spinning thread.
+   The hypothesis on w: in this model a spinning TASK keeps its worker (yield_k's do_yield from
+   k = 16 on is not modelled), so a pool whose workers all spin on each other's tasks is stuck with
+   whatever is staged; see notes/design/C02.md, round p13a. *)
+Theorem C02_spin_waker_not_lost : forall ssched ext w,
+  ext w = None ->
+  let c := spin_run ssched ext in
+  sstuck c ->
+  spin_at (fst c) (snd c w) = None ->
+  (forall a u, spinning (snd c a) u -> u < ntasks (fst c) /\ st (tw_of (fst c) u) = st_active) /\
+  (forall u p, u < ntasks (fst c) -> wake (tasks (fst c) u) = Some p -> tw_of (fst c) u <> wS (p + 1)) /\
+  (forall u p, u < ntasks (fst c) -> wake (tasks (fst c) u) = Some p -> tw_of (fst c) u = wA p ->
+     exists a v, running (bpc (snd c a)) u /\ spin_at (fst c) (snd c a) = Some v).
+Proof. exact spin_waker_not_lost. Qed.
+Print Assumptions C02_spin_waker_not_lost.
+
+(* the part of C02_spin_waker_not_lost that needs NO hypothesis on the workers: in every stuck
+   configuration of every run, a waker still inside the retry_on_active = false loop has an existing
+   target whose word is `active` — in particular no spinning waker's target is suspended (woken or
+   not), pending or terminated: the spin ends only through the ordinary non-active branch
+   (C02_spin_exit_is_ordinary_branch: wake-up CAS or return) *)
+Theorem C02_spin_waker_target_active_when_stuck : forall ssched ext,
+  let c := spin_run ssched ext in
+  sstuck c ->
+  forall a u, spinning (snd c a) u ->
+    u < ntasks (fst c) /\ st (tw_of (fst c) u) = st_active.
+Proof. exact (fun ssched ext => spinner_target_active_when_stuck (spin_run ssched ext)). Qed.
+Print Assumptions C02_spin_waker_target_active_when_stuck.
+
+(* the case in which the layer is exact — whatever still spins in the stuck configuration is an OS
+   thread (no pool worker spins): the conclusion of C02_no_lost_wakeup, word for word, for runs with
+   interrupts *)
+Theorem C02_spin_waker_not_lost_os_wakers : forall ssched ext w,
+  ext w = None ->
+  let c := spin_run ssched ext in
+  sstuck c ->
+  (forall a, ext a = None -> spin_at (fst c) (snd c a) = None) ->
+  forall u p, u < ntasks (fst c) -> wake (tasks (fst c) u) = Some p ->
+    tw_of (fst c) u <> wS (p + 1) /\ tw_of (fst c) u <> wA p.
+Proof. exact spin_waker_not_lost_os. Qed.
+Print Assumptions C02_spin_waker_not_lost_os_wakers.
+
+(* non-vacuity: OS thread 0 creates T = [Register; Suspend] and interrupts it (sint = true at the
+   step that enters the critical section) while T is registered and (active, 1): the obligation
+   wake = Some 1 exists, the waker is at the load and SPINS (spin_at = Some T); two steps of the
+   waker later the whole configuration is unchanged (no helper staged); T's worker stores
+   (suspended, 2): the waker no longer spins, CASes to (pending, 3), enqueues T, the call returns
+   (bit cleared); T runs again and terminates *)
+Example C02_example_spin_waker :
+  (let c := spin_run spin_sched_issue nv_ext in
+   snd c 0 = {| bpc := XRun [] (SLoad 0); nr := true |} /\ spin_at (fst c) (snd c 0) = Some 0 /\
+   wake (tasks (fst c) 0) = Some 1%N /\ tw_of (fst c) 0 = wA 1 /\ staged (fst c) = []) /\
+  (let c := spin_run spin_sched_issue nv_ext in let c' := spin_run spin_sched_spun nv_ext in
+   log (fst c') = log (fst c) /\ staged (fst c') = [] /\ tw_of (fst c') 0 = wA 1 /\
+   snd c' 0 = snd c 0 /\ snd c' 1 = snd c 1) /\
+  (let c := spin_run spin_sched_susp nv_ext in
+   tw_of (fst c) 0 = wS 2 /\ wake (tasks (fst c) 0) = Some 1%N /\ spin_at (fst c) (snd c 0) = None /\
+   spinning (snd c 0) 0) /\
+  (let c := spin_run spin_sched_woken nv_ext in
+   tw_of (fst c) 0 = {| st := st_pending; tag := 3 |} /\ pend (fst c) = [0] /\ staged (fst c) = [] /\
+   snd c 0 = {| bpc := XRun [] SNone; nr := false |}) /\
+  (let c := spin_run spin_sched_done nv_ext in
+   st (tw_of (fst c) 0) = st_terminated /\ pend (fst c) = [] /\ snd c 1 = {| bpc := WTop; nr := false |}).
+Proof. vm_compute. repeat split. Qed.
+
+(* a stuck configuration in which a waker spins: a task interrupting its own thread object
+   re-reads its own active word for ever (parts 1 and 3 of C02_spin_waker_not_lost are not vacuous;
+   worker 2 is idle and not spinning) *)
+Example C02_example_spin_self_stuck :
+  let c := spin_run self_sched self_ext in
+  sstuck c /\ spin_at (fst c) (snd c 1) = Some 0 /\ running (bpc (snd c 1)) 0 /\
+  spin_at (fst c) (snd c 2) = None.
+Proof. exact spin_self_stuck. Qed.
+
+(* ... and the run of C02_example_spin_waker, continued by one idle iteration, is stuck with nobody
+   spinning and T terminated: the hypotheses of C02_spin_waker_not_lost_os_wakers (with w = 1, nv_ext
+   1 = None) are met by a run in which a waker did spin *)
+Example C02_example_spin_end_stuck :
+  let c := spin_run spin_sched_end nv_ext in
+  sstuck c /\ (forall a, spin_at (fst c) (snd c a) = None) /\ st (tw_of (fst c) 0) = st_terminated.
+Proof. exact spin_end_stuck. Qed.
